@@ -280,7 +280,10 @@ def margin(node, P):
     if k in ("par", "tri"):
         return _poly_margin(P[node["var"]], corners(node, P, rows))
     if k == "poly":
-        return _nonconvex_margin(P[node["var"]], node["verts"])
+        m = _nonconvex_margin(P[node["var"]], node["verts"])
+        for h in node.get("holes", []):
+            m = np.minimum(m, -_nonconvex_margin(P[node["var"]], h))
+        return m
     if k == "union":
         return np.maximum(margin(node["a"], P), margin(node["b"], P))
     if k == "inter":
@@ -341,9 +344,10 @@ def measure(node, P, rows=None):
         det = np.abs(d1[:, 0] * d2[:, 1] - d1[:, 1] * d2[:, 0])
         return det if k == "par" else det / 2.0
     if k == "poly":
-        v = np.asarray(node["verts"], float)
-        a = 0.5 * abs(np.sum(v[:, 0] * np.roll(v[:, 1], -1) - np.roll(v[:, 0], -1) * v[:, 1]))
-        return np.full(rows, a)
+        def _area(vv):
+            v = np.asarray(vv, float)
+            return 0.5 * abs(np.sum(v[:, 0] * np.roll(v[:, 1], -1) - np.roll(v[:, 0], -1) * v[:, 1]))
+        return np.full(rows, _area(node["verts"]) - sum(_area(h) for h in node.get("holes", [])))
     if k == "pt":
         return np.ones(rows)
     if k in ("bleft", "bright"):
@@ -361,8 +365,11 @@ def measure(node, P, rows=None):
             c = corners(d, P, rows)
             return np.sum(np.linalg.norm(np.roll(c, -1, axis=1) - c, axis=2), axis=1)
         if kd == "poly":
-            v = np.asarray(d["verts"], float)
-            return np.full(rows, np.sum(np.linalg.norm(np.roll(v, -1, axis=0) - v, axis=1)))
+            tot = 0.0
+            for ring in [d["verts"]] + list(d.get("holes", [])):
+                v = np.asarray(ring, float)
+                tot += float(np.sum(np.linalg.norm(np.roll(v, -1, axis=0) - v, axis=1)))
+            return np.full(rows, tot)
         if kd == "union" and d.get("disjoint"):
             a, b = measure({"k": "bnd", "d": d["a"]}, P, rows), measure({"k": "bnd", "d": d["b"]}, P, rows)
             return None if a is None or b is None else a + b
@@ -558,9 +565,12 @@ def feature_dists(node, P):
         d = np.abs(np.sum((P[node["var"]][:, None, :] - a) * nrm, axis=2))
         return [d[:, i] for i in range(d.shape[1])]
     if k == "poly":
-        v = np.asarray(node["verts"], float)
         p = P[node["var"]]
-        return [_seg_dist(p, v[i], v[(i + 1) % len(v)]) for i in range(len(v))]
+        out = []
+        for ring in [node["verts"]] + list(node.get("holes", [])):
+            v = np.asarray(ring, float)
+            out += [_seg_dist(p, v[i], v[(i + 1) % len(v)]) for i in range(len(v))]
+        return out
     if k in ("union", "cut", "inter", "prod"):
         return feature_dists(node["a"], P) + feature_dists(node["b"], P)
     if k in ("transl", "rot"):
